@@ -232,6 +232,8 @@ def run(ctx):
         for g in fx.family(rr):
             prefixes |= str_compare_consts(g, fx).get("strip_prefix", set())
         for p in sorted({p.lower() for p in prefixes}):
+            if p.isdigit():
+                continue  # `00`: a digits-only prefix is covered by the pattern's decimal digits
             ctx.check(p in regex_src, "TABLE", "C12:TABLE:numeric:prefix:%s" % p, "numeric-looking pattern covers radix prefix %s" % p, "numeric-looking pattern does not cover the reader's radix prefix %s" % p, config, ctx.where(nl))
         for tok, what in (("[eE]", "exponent"), ("_", "digit separators"), ("[+-]?", "sign"), ("\\.", "decimal point")):
             ctx.check(tok in regex_src, "TABLE", "C12:TABLE:numeric:%s" % what, "numeric-looking pattern covers %s" % what, "numeric-looking pattern lost %s" % what, config, ctx.where(nl))
